@@ -1,6 +1,6 @@
 (* C03 -- parsing is total: value or error, never a panic; recursion bounded. *)
 From Coq Require Import SpecFloat.
-Require Import Base Value Float PrintOptions ParseOptions Reader Scan Num Parser DepthProofs DepthBoundProofs FuelProofs FloatFuel.
+Require Import Base Value Float PrintOptions ParseOptions Reader Scan Num Parser DepthProofs DepthBoundProofs FuelProofs FloatFuel SourcesAgree.
 
 (* Reader-level code (scanners, escapes, numbers, tokens, whitespace, byte
    vectors, end_seq/expect_end) cannot panic by construction: its error type
@@ -85,6 +85,30 @@ Proof.
   exact (conj H (C03_history ro alpha fast std_parse (fuel_for inp) k inp cs H)).
 Qed.
 Print Assumptions C03_history_total.
+
+(* The fuel is irrelevant once it suffices. One place of the model swallows the
+   fuel error: the digit-initial arm under leading_digit_symbols re-parses the
+   scanned symbol on a fresh reader and reads any failure of that re-parse,
+   running out of fuel included, as "not a number". C03_total alone would not
+   exclude a run that silently differs for lack of fuel there. This does: with
+   ANY step budget of at least fuel_for's, the entry points return exactly what
+   they return with fuel_for's, and at every call (from any state with at most
+   n events left, budgets fi <= fs of at least 2n+3) next_value and next_datum
+   return the same result and state - so no outcome of the model depends on
+   how much fuel it was given beyond the bound (the re-parse has enough because
+   a scanned symbol is no longer than the input it was scanned from). *)
+Theorem C03_fuel_irrelevant : forall ro alpha fast std_parse fuel k inp, (fuel_for inp <= fuel)%nat ->
+  from_trait_fuel ro alpha fast std_parse fuel k inp = from_trait ro alpha fast std_parse k inp /\
+  datum_from_trait_fuel ro alpha fast std_parse fuel k inp = datum_from_trait ro alpha fast std_parse k inp.
+Proof. exact from_trait_fuel_irrelevant. Qed.
+Print Assumptions C03_fuel_irrelevant.
+
+Theorem C03_fuel_irrelevant_every_call : forall ro alpha fast std_parse fi fs n s,
+  (2 * n + 3 <= fi)%nat -> (fi <= fs)%nat -> (FuelProofs.rem (rd s) <= n)%nat ->
+  next_value ro alpha fast std_parse fi s = next_value ro alpha fast std_parse fs s /\
+  next_datum ro alpha fast std_parse fi s = next_datum ro alpha fast std_parse fs s.
+Proof. exact every_call_fuel_irrelevant. Qed.
+Print Assumptions C03_fuel_irrelevant_every_call.
 
 (* Non-vacuity and the nesting limit on concrete inputs (default options, all
    three sources): 127 levels are accepted, 128 are rejected, for parentheses
